@@ -12,11 +12,12 @@ import sys
 sys.path.insert(0, os.path.join(ROOT, "lib"))
 
 # Every lib/cNN.py that defines MANIFEST = {technique, text, note, ref} is a claimed property.
+READY = set(open(os.path.join(ROOT, "lib", "ready.txt")).read().split())   # properties whose check is complete and committed
 CLAIMED = {}
 for _f in sorted(os.listdir(os.path.join(ROOT, "lib"))):
     if len(_f) == 6 and _f[0] == "c" and _f.endswith(".py") and _f[1:3].isdigit():
         _m = importlib.import_module(_f[:-3])
-        if hasattr(_m, "MANIFEST"):
+        if hasattr(_m, "MANIFEST") and _m.ID in READY:
             e = _m.MANIFEST
             CLAIMED[_m.ID] = (e["technique"], e["text"], e["note"], e["ref"])
 
